@@ -908,6 +908,8 @@ class UserCellsImpl(CellsImpl):
         newsrc = self.formula._reload(module).source
         if oldsrc != newsrc:
             self.model.clear_obj(self)
+            # Bind the code of the new formula
+            self.altfunc = CellsBoundFunction(self)
 
     def set_doc(self, doc, insert_indents=False):
 
